@@ -41,6 +41,18 @@ func main() {
 			}
 			fmt.Printf("%s upper-capable range-safe %d\n", eco, len(rangeSafe(eco, upperCapable(append(versionTemplates(eco, "m"), versionTemplates(eco, "l")...)))))
 		}
+	case "count":
+		// vx count <tier>: number of configurations per check
+		tier := "quick"
+		if len(os.Args) > 2 {
+			tier = os.Args[2]
+		}
+		for i := 1; i <= 20; i++ {
+			id := fmt.Sprintf("C%02d", i)
+			if cd := checks[id]; cd != nil {
+				fmt.Printf("%s %s %d\n", id, tier, len(cd.Gen(tier)))
+			}
+		}
 	default:
 		fmt.Fprintln(os.Stderr, "unknown command", os.Args[1])
 		os.Exit(2)
